@@ -128,11 +128,11 @@ Proof.
 Qed.
 
 (* expressions: generators and coroutines are refused by the expression rewriter wherever it arrives *)
-Lemma yield_rejected : forall n comp v, transf n comp (Yield v) = inr ERuntime.
+Lemma yield_rejected : forall n comp inn v, transf n comp inn (Yield v) = inr ERuntime.
 Proof. reflexivity. Qed.
-Lemma yield_from_rejected : forall n comp v, transf n comp (YieldFrom v) = inr ERuntime.
+Lemma yield_from_rejected : forall n comp inn v, transf n comp inn (YieldFrom v) = inr ERuntime.
 Proof. reflexivity. Qed.
-Lemma await_rejected : forall n comp v, transf n comp (Await v) = inr ERuntime.
+Lemma await_rejected : forall n comp inn v, transf n comp inn (Await v) = inr ERuntime.
 Proof. reflexivity. Qed.
 
 (* placement checks *)
